@@ -317,6 +317,8 @@ class ProgBase(HookMixin, ContextMixin, Process):
             self.ctx[item[1]] = dec(item[2])
         elif kind == 'ctxinc':
             self.ctx[item[1]] = self.ctx.get(item[1], 0) + 1
+        elif kind == 'ctxappend':
+            self.ctx.setdefault(item[1], []).append(dec(item[2]))
         elif kind == 'status':
             self.set_status(item[1])
             self._t('status', idx, value=item[1])
